@@ -915,7 +915,7 @@ func cycle3(rng *rand.Rand, b *board.Board, c Color) []move.Move {
 	return out[rng.Intn(len(out))]
 }
 
-func (r *rec) shuffle(corpus []string, plies int) {
+func (r *rec) shuffle(corpus []string, plies int, rawEp bool) {
 	for !r.full() {
 		var b *board.Board
 		var forced move.Move
@@ -924,7 +924,7 @@ func (r *rec) shuffle(corpus []string, plies int) {
 			b = r.load(fen)
 			forced = move.From(Square(mv[0])) | move.To(Square(mv[1]))
 		} else {
-			b = r.load(r.source(corpus, true))
+			b = r.load(r.source(corpus, rawEp))
 		}
 		var undoable []move.Move // reverses of recent reversible moves
 		// take-back variant: now and then the last few moves are undone and another line is played (which, with the
@@ -1599,7 +1599,7 @@ func main() {
 	case "transp":
 		r.transp(corpus)
 	case "shuffle":
-		r.shuffle(corpus, *plies)
+		r.shuffle(corpus, *plies, *rawEp)
 	case "script":
 		r.script(*in)
 	case "ucipos":
